@@ -205,8 +205,8 @@ def main(tier):
     except ImportError:
         map_isa = None
     if map_isa is not None and not os.environ.get("MAP_NO_ISA"):
-        budget = (150 - (time.time() - t_start)) if quick else 900
-        map_isa.run(ck, tier, rng("C02.isa"), max(40, budget))
+        budget = 70 if quick else 900
+        map_isa.run(ck, tier, rng("C02-isa"), budget)
         ck.oblige("ISA-level oracle ran", True)
     else:
         ck.oblige("ISA-level oracle ran", bool(os.environ.get("MAP_NO_ISA")), "harness/map_isa.py missing")
